@@ -102,10 +102,11 @@ def main():
     dst = os.path.join(VERIF, 'seeded', sid)
     if ok:
         os.makedirs(dst, exist_ok=True)
-        shutil.copy(patch, os.path.join(dst, 'patch.diff'))
-        shutil.copy(demo, os.path.join(dst, 'demo.py'))
-        if os.path.exists(notes):
-            shutil.copy(notes, os.path.join(dst, 'notes.txt'))
+        if os.path.abspath(src) != os.path.abspath(dst):
+            shutil.copy(patch, os.path.join(dst, 'patch.diff'))
+            shutil.copy(demo, os.path.join(dst, 'demo.py'))
+            if os.path.exists(notes):
+                shutil.copy(notes, os.path.join(dst, 'notes.txt'))
         meta['ran'] = ['scratch worktree: demo.py without/with patch, pinned test suite with patch',
                        ('scratch worktree (VERIF_REPO)' if scratch_run else '/repo') + ' with patch applied: ' + ', '.join('./check %s --tier quick' % c for c in checks)]
         with open(os.path.join(dst, 'meta.json'), 'w') as f:
